@@ -52,6 +52,12 @@ CHECKS = {
  "C06": ("watch-channel oracle over random histories (model decides must-close at every Commit, no-close after Abort, open at hand-out) + commit-phase monitor at the hook points inside Commit + woken-reader revision check with concurrent waiters under the race detector",
          "Fault enumeration at the hook points commit.beforeRootLock / commit.rootLocked / commit.afterNotify (no channel closed before the root store; closed channels imply a newer visible revision) on every commit of seeded random histories with up to 40 retained channels of every *Watch variant on every index kind; plus waiter goroutines under -race with delay injection.",
          "Spurious closes by committed transactions are allowed (the statement forbids only missed changes, early wake-ups and abort wake-ups); a commit that changes nothing (e.g. only a rejected compare-and-swap) may close channels without a newer revision; LowerBoundWatch is held to 'result changed', AllWatch to 'table changed'.", "5/C06"),
+ "C08": ("graveyard monitors under virtual time: change-stream oracle for lagging iterators while the collector runs, collector paused at the hook point between scan and write transaction while the table changes, bounded-drain check on the retained count reported by the DB",
+         "Fault enumeration of the scan/write window of the collector (paused at gc.afterScan in about one history in one; 1-3 adversarial steps before it resumes) plus exploration by seeded random histories with deletes/re-inserts/re-deletes and up to 4 iterators per table at arbitrary progress; bounded liveness: retained count 0 within 3 collection intervals of virtual time after all iterators drained or closed.",
+         "Liveness is only decided as this bounded progress under virtual time; the retained count is read from Metrics.GraveyardObjectCount.", "5/C08"),
+ "C19": ("initialization-state monitor (model set of registered/done initializers over committed transactions) + commit-phase monitor of the Initialized() channel at the hook points inside Commit + concurrent waiters under the race detector",
+         "Fault enumeration at the commit hook points (channel open up to and including commit.rootLocked, closed only by the completing commit, closed implies a fresh snapshot says initialized) on every commit of seeded random histories of registrations and marks across committed and aborted transactions; plus waiter goroutines under -race with delay injection.",
+         "Initializer names are unique per registration; done functions from registrations in aborted transactions are not called.", "5/C19"),
 }
 
 NOT_YET = "check not built yet in this session (planned: see DESIGN.md section 5)"
